@@ -248,7 +248,7 @@ def worker(job):
         markf = lambda k: grid(k, denom)
         mark_src = 'k / %d' % denom
     scripts = make_job_scripts(call_src, mark_src, better, lo, hi, label)
-    R = hc.Runner(res, plain(), call_src.split('(')[0], scripts, max_paths=60000, deadline=time.time() + 600, r_axioms=('mono', 'paired', 'sign') if system.startswith(('athlon', 'hungarian')) else ('mono', 'paired', 'err'))
+    R = hc.Runner(res, plain(), call_src.split('(')[0], scripts, max_paths=60000, deadline=time.time() + 600, r_axioms=('mono', 'paired', 'err'))
     try:
         if system == 'tyrving-manual':
             R.explore(body_manual(callf, kmin, kmax), label)
